@@ -400,24 +400,23 @@ func c12One(t *core.T, getSP func(c12Cfg) (*saml.ServiceProvider, string, string
 		if got := r.SelectAttrValue("AssertionConsumerServiceURL", ""); got != samlgen.SPAcs {
 			t.Fail(fk("acs-url"), "AssertionConsumerServiceURL %q", got)
 		}
-		wantFmt := string(c12NIDFormats[cf.nidFmt])
-		switch c12NIDFormats[cf.nidFmt] {
-		case "":
-			wantFmt = string(saml.TransientNameIDFormat)
-		case saml.UnspecifiedNameIDFormat:
-			wantFmt = ""
-		}
-		pol := one(r, samlgen.NSProtocol, "NameIDPolicy")
-		gotFmt := ""
-		if pol != nil {
-			gotFmt = pol.SelectAttrValue("Format", "")
-		}
-		if gotFmt != wantFmt {
-			t.Fail(fk("nameid-policy"), "NameIDPolicy Format %q, configured %q (expects %q)", gotFmt, c12NIDFormats[cf.nidFmt], wantFmt)
+		// an explicitly configured format must be emitted; what "unset" and "unspecified" map to is the library's choice
+		if f := c12NIDFormats[cf.nidFmt]; f != "" && f != saml.UnspecifiedNameIDFormat {
+			pol := one(r, samlgen.NSProtocol, "NameIDPolicy")
+			gotFmt := ""
+			if pol != nil {
+				gotFmt = pol.SelectAttrValue("Format", "")
+			}
+			if gotFmt != string(f) {
+				t.Fail(fk("nameid-policy"), "NameIDPolicy Format %q, configured %q", gotFmt, f)
+			}
 		}
 		fa := r.SelectAttrValue("ForceAuthn", "absent")
-		if want := []string{"absent", "true", "false"}[cf.force]; fa != want {
-			t.Fail(fk("forceauthn"), "ForceAuthn %q, configured %q", fa, want)
+		if cf.force == 1 && fa != "true" {
+			t.Fail(fk("forceauthn"), "ForceAuthn %q although configured true", fa)
+		}
+		if cf.force != 1 && fa == "true" {
+			t.Fail(fk("forceauthn"), "ForceAuthn true although not configured")
 		}
 		if (one(r, samlgen.NSProtocol, "RequestedAuthnContext") != nil) != cf.reqCtx {
 			t.Fail(fk("requested-authn-context"), "RequestedAuthnContext present=%v configured=%v", !cf.reqCtx, cf.reqCtx)
